@@ -524,12 +524,16 @@ func (s *Store[K, V]) DeleteWithSecondary(key K) error {
 	entry, ok := shard.get(key)
 	if ok {
 		shard.delete(entry)
-		if s.secondaryCache != nil {
-			err := s.secondaryCache.Delete(key)
-			if err != nil {
-				shard.mu.Unlock()
-				return err
+	}
+	// the key may live in the secondary cache only (demoted earlier)
+	if s.secondaryCache != nil && !shard.closed {
+		err := s.secondaryCache.Delete(key)
+		if err != nil {
+			shard.mu.Unlock()
+			if ok {
+				s.send(WriteBufItem[K, V]{entry: entry, code: REMOVE})
 			}
+			return err
 		}
 	}
 	shard.mu.Unlock()
